@@ -203,10 +203,15 @@ def numeric(ctx, quick):
                         yastn.tensordot(A, P, axes=(2, 1)).transpose(axes=(0, 1, 3, 2))
                     w = mgen.dense_state(phi, ops).reshape(-1)
                     ctx.count('sector-window')
-                    for nm, val in (('norm()', phi.norm()), ('sqrt(vdot(psi, psi))', abs(mps.vdot(phi, phi)) ** 0.5), ('factor after canonize_(normalize=False)', phi.copy().canonize_(to=to, normalize=False).factor)):
-                        if not np.isclose(val, np.linalg.norm(w), rtol=1e-9, atol=1e-12 * scale):
-                            ctx.violation('%s = %r differs from the dense norm %r for a chain whose tensors %d and %d carry different sectors on their bond (%s %s N=%d, canonical to %s)' % (
-                                nm, val, np.linalg.norm(w), m - 1, m, fam, sym, N, to), dict(desc0, kind='sector-window', to=to, m=m, keep=keep))
+                    # rounding is relative to the norm BEFORE the projection (scale): eps * scale for a norm obtained by QR sweeps, eps * scale^2 for the
+                    # overlap, i.e. sqrt(eps) * scale for its square root when almost nothing survives the projection
+                    nw_ = float(np.linalg.norm(w))
+                    for nm, val, tol_ in (('norm()', phi.norm(), 1e-9 * scale), ('sqrt(vdot(psi, psi))', abs(mps.vdot(phi, phi)) ** 0.5, None),
+                                          ('factor after canonize_(normalize=False)', phi.copy().canonize_(to=to, normalize=False).factor, 1e-9 * scale)):
+                        ok_ = abs(val ** 2 - nw_ ** 2) <= 1e-9 * scale ** 2 if tol_ is None else abs(val - nw_) <= max(tol_, 1e-9 * nw_)
+                        if not ok_:
+                            ctx.violation('%s = %r differs from the dense norm %r (norm before the projection %r) for a chain whose tensors %d and %d carry different sectors on their bond (%s %s N=%d, canonical to %s)' % (
+                                nm, val, np.linalg.norm(w), scale, m - 1, m, fam, sym, N, to), dict(desc0, kind='sector-window', to=to, m=m, keep=keep))
                             break
         if not is_mpo and N >= 2:
             d = sum(ops.space().D)
